@@ -3,6 +3,27 @@ from .codec import expand
 from . import oracle as o
 
 
+def tag_of_zero_ct(rounds, key, nonce, aad, nbytes):
+    """RFC 8439 tag of (aad, nbytes zero bytes of ciphertext), nbytes a multiple of 16, without materialising the ciphertext"""
+    import struct
+    otk = o.chacha_ietf_block(key, nonce, 0, rounds)[:32]
+    r_ = int.from_bytes(otk[:16], 'little') & 0x0ffffffc0ffffffc0ffffffc0fffffff
+    P_ = (1 << 130) - 5
+    acc = 0
+    ad = aad + o.pad16(aad)
+    for i in range(0, len(ad), 16):
+        acc = (acc + int.from_bytes(ad[i:i + 16] + b'\x01', 'little')) * r_ % P_
+    n = nbytes // 16
+    if r_ == 0:
+        acc = 0
+    elif r_ == 1:
+        acc = (acc + (n << 128)) % P_
+    else:
+        acc = (acc * pow(r_, n, P_) + (1 << 128) * r_ * (pow(r_, n, P_) - 1) * pow(r_ - 1, P_ - 2, P_)) % P_
+    acc = (acc + int.from_bytes(struct.pack('<QQ', len(aad), nbytes) + b'\x01', 'little')) * r_ % P_
+    return ((acc + int.from_bytes(otk[16:], 'little')) & ((1 << 128) - 1)).to_bytes(16, 'little')
+
+
 def tag_of(rounds, key, nonce, aad, ct):
     otk = o.chacha_ietf_block(key, nonce, 0, rounds)[:32]
     import struct
@@ -38,7 +59,7 @@ def check_aead(line, toks):
             v.append(('oneshot-decrypt-plaintext', 'plaintext mismatch'))
         return v
     if op == 'aead_inc':
-        aad = b''; data_in = b''; mode = None; zero_aad = 0
+        aad = b''; data_in = b''; mode = None; zero_aad = 0; zero_ct = 0
         ti = 0
         v = []
         for s in f[4:]:
@@ -49,6 +70,16 @@ def check_aead(line, toks):
                 zero_aad += int(p[1])       # that many zero bytes of AAD, fed in chunks; never materialised here
             elif p[0] in ('E', 'D'):
                 mode = p[0]
+            elif p[0] == 'dz':
+                # zero_ct zero bytes of ciphertext: the plaintext is the keystream from block 1 on; never materialised here
+                zero_ct = int(p[1])
+                assert mode == 'D' and not data_in and zero_ct >= 128 and zero_ct % 64 == 0
+                first = o.chacha_ietf_block(key, nonce, 1, rounds)
+                last = o.chacha_ietf_block(key, nonce, zero_ct // 64, rounds)
+                t = toks[ti] if ti < len(toks) else None; ti += 1
+                if t != '%s:%s' % (first.hex(), last.hex()):
+                    v.append(('incremental-decrypt-bytes', '%d zero bytes of ciphertext: first/last plaintext block expected %s../%s.. got %s' % (zero_ct, first.hex()[:16], last.hex()[:16], str(t)[:80])))
+                    return v
             elif p[0] in ('ex', 'dx'):
                 # mismatched output length: must be refused, and must leave the context exactly as it was
                 t = toks[ti] if ti < len(toks) else None; ti += 1
@@ -66,6 +97,33 @@ def check_aead(line, toks):
                     return v
                 data_in += d
             elif p[0] == 'fin':
+                if zero_ct:
+                    import struct
+                    assert not zero_aad and mode == 'D'
+                    otk = o.chacha_ietf_block(key, nonce, 0, rounds)[:32]
+                    # MAC input: padded AAD, then zero_ct zero bytes (a multiple of 16), then the two lengths
+                    r_ = int.from_bytes(otk[:16], 'little') & 0x0ffffffc0ffffffc0ffffffc0fffffff
+                    P_ = (1 << 130) - 5
+                    acc = 0
+                    ad = aad + o.pad16(aad)
+                    for i in range(0, len(ad), 16):
+                        acc = (acc + int.from_bytes(ad[i:i + 16] + b'\x01', 'little')) * r_ % P_
+                    n = zero_ct // 16
+                    # acc after n all-zero blocks: acc*r^n + 2^128*(r + ... + r^n)
+                    if r_ == 0:
+                        acc = 0
+                    elif r_ == 1:
+                        acc = (acc + (n << 128)) % P_
+                    else:
+                        acc = (acc * pow(r_, n, P_) + (1 << 128) * r_ * (pow(r_, n, P_) - 1) * pow(r_ - 1, P_ - 2, P_)) % P_
+                    lb = struct.pack('<QQ', len(aad), zero_ct)
+                    acc = (acc + int.from_bytes(lb + b'\x01', 'little')) * r_ % P_
+                    want = ((acc + int.from_bytes(otk[16:], 'little')) & ((1 << 128) - 1)).to_bytes(16, 'little')
+                    good = want == expand(p[1])
+                    t = toks[ti] if ti < len(toks) else None; ti += 1
+                    if (t == 'T') != good:
+                        v.append(('incremental-accepts-wrong-tag' if t == 'T' else 'incremental-rejects-right-tag', '%d zero bytes of ciphertext: verdict %s, tag is %s' % (zero_ct, t, 'correct' if good else 'wrong')))
+                    continue
                 if zero_aad:
                     assert not aad
                     ct = stream(rounds, key, nonce, data_in) if mode == 'E' else data_in
